@@ -231,7 +231,9 @@ class LazyToken:
         name = self.concrete_class().__name__
         e = self.eng
         if name in ("Number", "FixedNumber"):
-            val = e.real("t%d.num" % self.i)
+            # a numeral is a finite real -- or +inf if the current tokenizer turns a literal beyond the double
+            # range (1e999) into a Number token (probed concretely on the real tokenizer)
+            val = e.float_any("t%d.num" % self.i, kinds=("finite", "+inf") if _overflow_literals_tokenise() else ("finite",))
         elif name == "Identifier":
             val = VOCAB[e.choice(len(VOCAB), "t%d.ident" % self.i)]
         elif name == "Label":
@@ -251,6 +253,20 @@ class LazyToken:
 
     def __repr__(self):
         return "<LazyToken %d>" % self.i
+
+
+_PROBE = {}
+
+
+def _overflow_literals_tokenise() -> bool:
+    if "inf" not in _PROBE:
+        import pyimpspec.circuit.tokenizer as tk
+        try:
+            toks = tk.Tokenizer().process("1e999")
+            _PROBE["inf"] = len(toks) == 1 and toks[0].value == float("inf")
+        except Exception:
+            _PROBE["inf"] = False
+    return _PROBE["inf"]
 
 
 def _token_classes(tk):
@@ -284,6 +300,9 @@ def render_tokens(witness, n):
         if name in ("Number", "FixedNumber"):
             v = witness.get("t%d.num" % i, 1)
             v = 1 if v is None else v
+            if witness.get("t%d.num.kind" % i) == 1:
+                parts.append("1e999" + ("F" if name == "FixedNumber" else ""))
+                continue
             f = float(Fraction(v)) if isinstance(v, str) and "/" in v else float(str(v).rstrip("?"))
             txt = repr(f)
             if "inf" in txt or "nan" in txt:
@@ -320,9 +339,30 @@ def check_wellformed(eng, circuit):
         else:
             eng.check(False, "only elements and connections inside a circuit", lambda: "found %r" % (x,))
     walk(circuit._elements)
-    eng.scratch["format_hook"] = lambda fmt, v: "1.0E+00"
-    ok, txt = call(circuit.to_string, 3)
+    from .c03 import Sentinels, parse_tokens
+    from sx.values import s_and
+    S = Sentinels()
+    eng.scratch["format_hook"] = lambda fmt, v: fmt % S.new(v)
+    ok, txt = call(circuit.to_string, 12)
     eng.check(ok and isinstance(txt, str), "accepted circuit can be serialised", lambda: "to_string raised %r" % (txt,))
+    if not ok:
+        return
+    # the extended serialisation is itself accepted whenever the values lie within their limits
+    conds = []
+    for e in circuit._elements._get_elements_recursive():
+        lo, up, vals = e.get_lower_limits(), e.get_upper_limits(), e.get_values()
+        for key in vals:
+            conds.append(lo[key] <= vals[key])
+            conds.append(vals[key] <= up[key])
+    within = s_and(*conds) if conds else True
+    if bool(within):
+        if eng.symbolic:
+            ok2, again = parse_tokens(eng, txt, S)
+        else:
+            from pyimpspec import parse_cdc
+            ok2, again = call(parse_cdc, txt)
+        eng.check(ok2, "the serialisation of an accepted circuit with values within limits is accepted again",
+                  lambda: "%r: %s: %s" % (txt, type(again).__name__, again))
 
 
 def make_parse_harness(n: int):
@@ -512,7 +552,7 @@ EXPLANATION = (
     "real parser over lazy token lists; z3 decides which branches are feasible and whether any exception other than the documented "
     "parsing/tokenizing errors can escape."
 )
-ASSUMPTIONS = ["numerals denote finite reals (a literal such as 1e999 is outside)", "only ASCII classification is modelled for symbolic characters"]
+ASSUMPTIONS = ["numerals denote finite reals or +inf (a literal beyond the double range)", "only ASCII classification is modelled for symbolic characters"]
 OUTSIDE = ["tokens longer than the stated number of characters", "recursion depth (about 1000 nested brackets)"]
 
 
